@@ -30,7 +30,7 @@ PROBES = ["fallback_taken", "fallback_desc_false", "model_kept", "all_untrained"
           "memorise_worse_branch", "override_on", "enc_pm1", "enc_10", "enc_bool", "parquet", "workers>1",
           "zero_scores_returned", "multi_file", "confidence_checked", "confidence_desc_false", "fold_aligned_feature",
           "folds_disagree_on_best_feature", "all_trained_but_fallback", "confidence_rollup_level_checked", "confidence_repeated",
-          "feat_pass_compared_with_reference", "integer_best_feature"]
+          "feat_pass_compared_with_reference", "integer_best_feature", "tied_values_compete"]
 RULE = (
     "For each sampled data set (planted strong feature, lower-is-better in half of them; 3 label encodings; text/Parquet) "
     "and fold count, EVERY assignment of {good, noise, constant, raise_recognised, anti, memorise, overfit} to the folds' estimators "
@@ -354,8 +354,18 @@ def run_scenario(scn, workdir):
         recs = refmodel.table_records(t, sign * s)
         by_id = {r["PSMId"]: r for r in recs}
         levels = refmodel.strict_competition(recs, True, rollup, ())
-        if rollup and competing_ties([t], [s]):
-            levels = {"psms": levels["psms"]}  # tied rows compete for a peptide: the winner is arbitrary
+        tied = competing_ties([t], [s])
+        if tied:
+            # rows with exactly equal values compete for a spectrum or a peptide (an integer feature returned as the
+            # score): any tied winner is acceptable, so only the PSM level is checked, and tie-aware
+            levels = {"psms": levels["psms"]}
+            probes["tied_values_compete"] = 1
+        si = [t["columns"].index(c) for c in t["meta"]["spectrum"]]
+        spec_of = {r[t["columns"].index("SpecId")]: tuple(r[j] for j in si) for r in t["rows"]}
+        best_of = {}
+        for r in recs:
+            k = spec_of[r["PSMId"]]
+            best_of[k] = max(best_of.get(k, -np.inf), r["score"])
         if not d:
             probes["confidence_desc_false"] = 1
         for level, exp in levels.items():
@@ -375,7 +385,14 @@ def run_scenario(scn, workdir):
             got_ids = {r[h["PSMId"]] for r in rows}
             if level != "psms":
                 probes["confidence_rollup_level_checked"] = 1
-            if got_ids != exp_ids:
+            if tied:
+                worse = [i for i in got_ids if i in by_id and by_id[i]["score"] != best_of[spec_of[i]]]
+                dup = len({spec_of[i] for i in got_ids if i in spec_of}) != len(got_ids)
+                if worse or dup or not got_ids <= set(by_id):
+                    return viol("confidence_direction", f"{name}: with desc={d} (tied values present) {len(worse)} retained PSMs do "
+                                f"not carry the best value of their spectrum, e.g. {sorted(worse)[:4]}; duplicates={dup}",
+                                desc=bool(d), what="competition", level=level)
+            elif got_ids != exp_ids:
                 wrong = sorted(got_ids - exp_ids)[:4]
                 unit = "spectrum" if level == "psms" else "peptide"
                 return viol("confidence_direction", f"{name}: with desc={d} the retained PSM of a {unit} must be the "
@@ -390,7 +407,7 @@ def run_scenario(scn, workdir):
             if any((b > a) if d else (b < a) for a, b in zip(sc_file, sc_file[1:])):
                 return viol("confidence_direction", f"{name}: rows are not ordered best-first for desc={d}", desc=bool(d),
                             what="order", level=level)
-            if not near and got != want:
+            if not near and not tied and got != want:
                 return viol("confidence_direction", f"{name}: {got} targets at q<={thr} with desc={d}, ranking in the returned "
                             f"direction gives {want}", desc=bool(d), what="count", level=level)
     return out
